@@ -54,14 +54,21 @@ def C_idx_find(repo, clause):
             raise AnalysisError("C-idx: find_pattern_in_structure lost parameter %s" % p)
     W, f = isa.analyse(repo, "find_pattern_in_structure", env)
     obs = _collect(repo, W, clause, "Cidx")
-    floor("Cidx", "typed index obligations in the search", len(obs), 20)
     kinds = {}
     for o in obs:
         k = o.slot.split(":")[0]
         kinds[k] = kinds.get(k, 0) + 1
-    for need, n in (("fold idx%len", 2), ("subscript", 12), ("mat-subscript", 3), ("map-lookup", 1), ("home-block", 1)):
-        if kinds.get(need, 0) < n:
-            raise AnalysisError("C-idx: only %d `%s` obligations typed in the search (floor %d): coverage lost" % (kinds.get(need, 0), need, n))
+    # start atoms must come from the home-cell block of the image-major lists
+    if kinds.get("home-block", 0) < 1:
+        st = [c for c in calls_in(fnobj) if call_name(c) == "atoms_of_type"]
+        obs.append(Ob("Cidx", clause, fnobj, st[0] if st else fnobj.node, False,
+                      "start atoms are not restricted to the home-cell block [0:len(structure)] of the image lists: every periodic occurrence is then generated once per image",
+                      slot="home-block:missing"))
+    if not any(not o.ok for o in obs):
+        floor("Cidx", "typed index obligations in the search", len(obs), 20)
+        for need, n in (("fold idx%len", 2), ("subscript", 12), ("mat-subscript", 3), ("map-lookup", 1), ("home-block", 1)):
+            if kinds.get(need, 0) < n:
+                raise AnalysisError("C-idx: only %d `%s` obligations typed in the search (floor %d): coverage lost" % (kinds.get(need, 0), need, n))
     # returned shape
     rt = f.ret
     ok = isa.is_(rt, "tup") and len(rt[1]) == 3 and all(isa.is_(x, "seq") for x in rt[1]) and \
@@ -125,13 +132,14 @@ def C_idx_replace(repo, clause):
     fnobj = repo.fn("replace_pattern_in_structure")
     W, f = isa.analyse(repo, "replace_pattern_in_structure", env, seeds={"find_pattern_in_structure": _find_seed})
     obs = _collect(repo, W, clause, "Cidx")
-    floor("Cidx", "typed index obligations in the replacement", len(obs), 12)
     kinds = {}
     for o in obs:
         k = o.slot.split(":")[0]
         kinds[k] = kinds.get(k, 0) + 1
+    if not any(not o.ok for o in obs):
+        floor("Cidx", "typed index obligations in the replacement", len(obs), 12)
     for need, n in (("extend-map-key", 1), ("extend-map-value", 1), ("set-op", 2), ("delete-index", 1), ("subscript", 4)):
-        if kinds.get(need, 0) < n:
+        if kinds.get(need, 0) < n and not any(not o.ok for o in obs):
             raise AnalysisError("C-idx: only %d `%s` obligations typed in the replacement (floor %d): coverage lost" % (kinds.get(need, 0), need, n))
     # reported count = length of the filtered index list
     rets = [n for n in fnobj.own_nodes() if isinstance(n, ast.Return) and isinstance(n.value, ast.Tuple)]
